@@ -13,6 +13,7 @@ import Verif.Lemmas.Chain
 import Verif.Lemmas.ChainF
 import Verif.Lemmas.Ancestor
 import Verif.Lemmas.Adopt
+import Verif.Lemmas.Mutex
 
 namespace Verif.C01
 open Verif.Chain
@@ -335,5 +336,55 @@ example : GoodRun Uex (run Uex Mgr.init [[1, 2], [3, 4, 5]]) (run Uex Mgr.init [
   refine ⟨?_, by decide, by decide⟩
   simp only [GoodRun]
   refine ⟨Or.inl (by decide), by decide, by decide, trivial⟩
+
+/-! ### atomicity licence: callers of a lock-disciplined object are serialisable
+
+`addBlocks`, `addV2`, `prune` above are ATOMIC steps. The manager is called from many goroutines.
+`Props/C01Src.lean` proves from the source that every method is a sequence of critical sections of
+one exclusive lock (one section, or two around the listener calls). `Model/Mutex.lean` gives such
+callers an instruction-level interleaving semantics; the theorems below say that under EVERY
+schedule the state is the serial execution of whole sections in lock-release order (plus the
+executed prefix of the section in progress, which no other caller can observe because observing
+is itself a section), and that each caller's sections happen in its program order. -/
+
+open Verif.Mutex in
+/-- for every initial state, every set of callers, every schedule: serialisability -/
+theorem locked_callers_serializable {σ : Type} (x0 : σ) (progs : List (List (Seg σ))) (sched : List Nat) :
+    let s := Mutex.run (Mutex.init x0 progs) sched
+    s.st = (held s).foldl app (serial s.done x0) ∧ ∀ t, progOf s t = (progs[t]?).getD [] := by
+  intro s
+  exact ⟨run_stInv x0 sched _ (init_stInv x0 progs), fun t => by
+    rw [show s = Mutex.run (Mutex.init x0 progs) sched from rfl, run_progOf, init_progOf]⟩
+
+open Verif.Mutex in
+/-- whenever the lock is free the state is EXACTLY a serial execution of completed sections, and
+the completed sections of caller `t` followed by its unstarted ones are its program -/
+theorem lock_free_state_is_serial {σ : Type} (x0 : σ) (progs : List (List (Seg σ))) (sched : List Nat)
+    (hfree : (Mutex.run (Mutex.init x0 progs) sched).hold = none) :
+    let s := Mutex.run (Mutex.init x0 progs) sched
+    s.st = serial s.done x0 ∧
+    ∀ t, ((s.done.filter (fun d => d.1 == t)).map (·.2)) ++ (s.rest[t]?).getD [] = (progs[t]?).getD [] := by
+  intro s
+  have h := locked_callers_serializable x0 progs sched
+  refine ⟨?_, fun t => ?_⟩
+  · have h1 := h.1
+    simp only [held, hfree] at h1
+    exact h1
+  · have h2 := h.2 t
+    simp only [progOf, hfree, List.append_nil] at h2
+    exact h2
+
+open Verif.Mutex in
+/-- non-vacuity and necessity: two callers, `[x+1; x*2]` and `[x := 5]`. With the lock the
+schedule 0,0,1,0,0,1,1,1 ends in a serial outcome; the same instructions WITHOUT the lock and the
+schedule 0,1,0 end in 10, which neither serial order (5 and 12) produces -/
+example :
+    let progs : List (List (Seg Nat)) := [[[(· + 1), (· * 2)]], [[fun _ => 5]]]
+    (Mutex.run (Mutex.init 0 progs) [0, 0, 1, 0, 0, 1, 1, 1]).st = 5 ∧
+    (Mutex.run (Mutex.init 0 progs) [0, 0, 1, 0, 0, 1, 1, 1]).hold = none ∧
+    ((Mutex.run (Mutex.init 0 progs) [0, 0, 1, 0, 0, 1, 1, 1]).done.map (·.1)) = [0, 1] ∧
+    serial [(1, [fun _ => 5]), (0, [(· + 1), (· * 2)])] 0 = 12 ∧
+    runRaw 0 progs [0, 1, 0] = 10 := by
+  refine ⟨rfl, rfl, rfl, rfl, rfl⟩
 
 end Verif.C01
